@@ -72,6 +72,9 @@ class Scheduler:
         self.last_where = None
         self.aborting = False
         self.starve_limit = 400
+        self.slow_starts = []  # fault plan: [{"nth": k, "dur": seconds}] - the k-th thread started gets going late
+        self.started_count = 0
+        self.started_armed = 0
         self.stalls = []  # fault plan: [{"func": name, "nth": n, "dur": seconds}] - a thread descheduled for a while
         self.stall_seen = {}
         self.stall_seen_armed = {}
@@ -127,6 +130,26 @@ class Scheduler:
     def child_enter(self, st):
         st.gate.acquire()  # wait for the first baton
         self._tls.st = st
+
+    def maybe_slow_start(self, st):
+        """Fault: a freshly created OS thread gets its first time slice only after a while."""
+        self.started_count += 1
+        if self.stall_armed:
+            self.started_armed = getattr(self, "started_armed", 0) + 1
+        for p in self.slow_starts:
+            if p.get("after"):
+                # the first `count` threads created once a termination trigger has fired
+                hit = self.stall_armed and self.started_armed <= p.get("count", 1)
+            else:
+                hit = p["nth"] == self.started_count
+            if hit and self.active and not self.aborting:
+                self.count_fault("slow-thread-start")
+                self.probe("slow-start:" + st.name.split("#")[0])
+                self.stall_total += p["dur"]
+                deadline = self.now + p["dur"]
+                while self.now < deadline:
+                    self.block(st, "stall", deadline)
+                return
 
     def thread_exit(self, st):
         st.state = DONE
